@@ -127,7 +127,12 @@ func CreateEmptyTrak(trackID, timeScale uint32, mediaType, language string) *Tra
 	trak := &TrakBox{}
 	tkhd := CreateTkhd()
 	tkhd.TrackID = trackID
-	if mediaType == "audio" {
+	hdlr, err := CreateHdlr(mediaType)
+	if err != nil {
+		panic(fmt.Sprintf("mediaType %s not supported", mediaType))
+	}
+	// mediaType can be a media type like "audio" or a handler type like "soun", as for CreateHdlr
+	if hdlr.HandlerType == "soun" {
 		tkhd.Volume = 0x0100 // Fixed 16 value 1.0
 	}
 	trak.AddChild(tkhd)
@@ -137,10 +142,6 @@ func CreateEmptyTrak(trackID, timeScale uint32, mediaType, language string) *Tra
 	mdhd := &MdhdBox{}
 	mdhd.Timescale = timeScale
 	mdia.AddChild(mdhd)
-	hdlr, err := CreateHdlr(mediaType)
-	if err != nil {
-		panic(fmt.Sprintf("mediaType %s not supported", mediaType))
-	}
 	mdia.AddChild(hdlr)
 	if len(language) == 3 {
 		mdhd.SetLanguage(language)
@@ -151,16 +152,14 @@ func CreateEmptyTrak(trackID, timeScale uint32, mediaType, language string) *Tra
 	}
 	minf := NewMinfBox()
 	mdia.AddChild(minf)
-	switch mediaType {
-	case "video":
+	switch hdlr.HandlerType {
+	case "vide":
 		minf.AddChild(CreateVmhd())
-	case "audio":
+	case "soun":
 		minf.AddChild(CreateSmhd())
-	case "subtitle", "subtitles", "stpp":
+	case "subt":
 		minf.AddChild(&SthdBox{})
-	case "text", "wvtt":
-		minf.AddChild(&NmhdBox{})
-	default:
+	default: // "text", "meta", ...
 		minf.AddChild(&NmhdBox{})
 	}
 	dinf := &DinfBox{}
